@@ -71,7 +71,7 @@ contract(
     ensures=["node.parent == old(node.parent)", "node.kind == old(node.kind)", "node.line == old(node.line)",
              # (a warning node is appended only for a failing converter; these call sites pass none - `converters` is typed None)
              "node.children == old(node.children)"],
-    types={"token": "SyntaxTreeNode", "node": "Element", "keys": "tuple[str, ...]", "converters": "None", "aliases": "None"},
+    types={"token": "SyntaxTreeNode", "node": "Element", "keys": "tuple[str, ...]", "converters": "None"},
     raises={}, modifies=["node.children", "Document.log", "fresh", "Element.parent"], trusted=True,
 )
 assumed("DocutilsRenderer.copy_attributes", "copies class / id / other attributes (not modelled); without converters (all call sites under "
@@ -154,6 +154,50 @@ for _m, _k in (("render_math_inline", "math"), ("render_math_single", "math"), (
                         f"implies(token.map is not None and len(token.map) > 0, {NEW}.line == token.map[0])"],
         types={"token": "SyntaxTreeNode"}, raises={}, modifies=RMOD, properties=["C02", "C03"],
     )
+# inline code: one literal node with the code verbatim (attributes - class, id, language - are not part of the model)
+fields("docutils.nodes:Element", g_has_language="bool")
+contract(
+    "ext:Element.__contains__",
+    types={"__params__": ["self", "key"], "self": "Element", "key": "str"},
+    requires=["key == 'language'"], ensures=["result == self.g_has_language"], returns="bool", modifies=[], pure=True, trusted=True,
+)
+contract(
+    "ext:Element.__getitem__[classes]",
+    types={"__params__": ["self", "key"], "self": "Element", "key": "str"},
+    requires=[], ensures=[], returns="list[str]", modifies=[], pure=True, trusted=True,
+)
+contract(
+    "ext:Element.__item_append__[classes]",
+    types={"__params__": ["self", "key", "value"], "self": "Element", "key": "str", "value": "str"},
+    requires=[], ensures=[], returns="None", modifies=[], trusted=True,
+)
+contract(
+    "ext:Element.__item_extend__[classes]",
+    types={"__params__": ["self", "key", "value"], "self": "Element", "key": "str", "value": "list[str]"},
+    requires=[], ensures=[], returns="None", modifies=[], trusted=True,
+)
+contract(
+    "ext:docutils.nodes.comment",
+    types={"__params__": ["rawsource", "text"], "rawsource": "str", "text": "str"},
+    requires=[], ensures=["result.kind == 'comment'", "len(result.children) == 0", "result.parent is None", "result.line is None", "result.text == text"],
+    returns="Element", modifies=["fresh1"], trusted=True,
+)
+contract(
+    f"{M}:DocutilsRenderer.render_code_inline",
+    requires=REQ,
+    ensures=KEEP + ["len(self.current_node.children) == len(old(self.current_node.children)) + 1",
+                    f"{NEW}.parent == self.current_node and fresh({NEW})",
+                    f"{NEW}.kind == 'literal' and {NEW}.text == token.content",
+                    f"implies(token.map is not None and len(token.map) > 0, {NEW}.line == token.map[0])"],
+    types={"token": "SyntaxTreeNode"}, raises={}, modifies=RMOD, properties=["C02", "C03"],
+)
+contract(
+    f"{M}:DocutilsRenderer.render_myst_line_comment",
+    requires=REQ,
+    ensures=KEEP + ["len(self.current_node.children) == len(old(self.current_node.children)) + 1",
+                    f"{NEW}.parent == self.current_node and fresh({NEW}) and {NEW}.kind == 'comment'"],
+    types={"token": "SyntaxTreeNode"}, raises={}, modifies=RMOD, properties=["C02", "C03"],
+)
 contract(
     f"{M}:DocutilsRenderer.render_inline",
     # an `inline` token is the child of a paragraph / heading / cell token, whose renderer has made a non-structural node current
